@@ -1,14 +1,16 @@
 ---- MODULE T_Wb2NativeLock ----
-(* Lock-step conformance (binding B2) of the design model D_Wb2Native with the REAL narrow-bus Wishbone bridge
+(* Lock-step conformance (binding B2) of the design models D_Wb2Native / D_WbEq with the REAL Wishbone bridge
    (8-bit Wishbone, R-byte native port, base address 0): one trace line per clock cycle with the bridge's inputs
    (Wishbone master side + native memory side) and its outputs.  TLC re-executes BComb / BNext on the logged inputs and
    compares every output.  A mismatch is MODEL DRIFT (the model no longer is the code), never a verdict on the code.
-   Line 1: [R].  Line: [i |-> inputs as in D_Wb2Native, o |-> [ack, dat_r, cv, cwe, ca, clast, wv, wd, ww, rr]]. *)
-EXTENDS TraceLib, D_Wb2Native
+   Line 1: [R, PATH ("narrow": D_Wb2Native | "equal": D_WbEq with R = 1), VAR (variant of D_WbEq)].  Line: [i |-> inputs as in D_Wb2Native, o |-> [ack, dat_r, cv, cwe, ca, clast, wv, wd, ww, rr]]. *)
+EXTENDS TraceLib, D_Wb2Native, D_WbEq
 Rr == Trace[1].R
+Narrow == Trace[1].PATH = "narrow"
+Vr == Trace[1].VAR
 VARIABLES l, r, bad, nack
 vars == <<l, r, bad, nack>>
-TInit == l = 2 /\ r = BInit(Rr) /\ bad = {} /\ nack = 0
+TInit == l = 2 /\ r = (IF Narrow THEN BInit(Rr) ELSE EInit) /\ bad = {} /\ nack = 0
 Diff(e, o) ==
     {<<"ack", e.o.ack, o.ack>> : x \in IF e.o.ack # o.ack THEN {1} ELSE {}}
     \cup {<<"dat_r", e.o.dat_r, o.dat_r>> : x \in IF o.ack = 1 /\ e.i.we = 0 /\ e.o.dat_r # o.dat_r THEN {1} ELSE {}}
@@ -22,8 +24,8 @@ Diff(e, o) ==
 TNext == /\ l <= NLines
          /\ l' = l + 1
          /\ LET e == Trace[l]
-                o == BComb(Rr, r, e.i, "none") IN
-            /\ r' = BNext(Rr, r, e.i, "none")
+                o == IF Narrow THEN BComb(Rr, r, e.i, "none") ELSE EComb(r, e.i, Vr) IN
+            /\ r' = IF Narrow THEN BNext(Rr, r, e.i, "none") ELSE ENext(r, e.i, Vr)
             /\ bad' = IF Cardinality(bad) < 8 THEN bad \cup {<<l, "MODEL-DRIFT">> \o x : x \in Diff(e, o)} ELSE bad
             /\ nack' = nack + o.ack
 TSpec == TInit /\ [][TNext]_vars
